@@ -1,5 +1,9 @@
 NOT_YET = {}
 CLAIMED = {
+ "C03": ("differential execution in V8: probe traces of the unminified program vs each minified output (case packs + generated programs); folded constants checked by executing them",
+         "Exploration: ~21k table cases per quick run (75k in thorough: operator × boundary-literal grid exhaustive over 52 literals, operator × probe/coercion-object operands, 110 unused-expression forms, ~450 compile-time-evaluable built-in forms, ~250 statement skeletons) × 7 minify flag subsets, plus 1.5k/40k generated programs × minify variants (keep-names observed via .name). Every differing case is re-run alone and reported with its traces. Held-on-observed only.",
+         "Trusted: V8 (Node 20) as the language semantics; the probe host's canonical serialisation. ** results may differ by ≤2e-15 relative (only in programs that use **). Programs avoid the documented minifier assumptions by construction. define/pure/drop/drop-labels sub-workload: see C03 notes in DESIGN.",
+         "DESIGN.md §3 C03"),
  "C16": ("crash/hang/leak monitor over seeded mutational batches in journalled child processes (API boundary: return, error markers, canary build, goroutine baseline, per-call watchdog)",
          "Exploration: 120k (quick) / 2.4M (thorough) cases, each a pure function of (seed, index): repo test inputs for 7 loaders × token/byte mutators, deep nesting, malformed source-map payloads, bundles of repo test trees with a mutated file, real-directory bundles with mutated package.json/tsconfig.json × random flags. Observed per case: the call returned, no `panic:`/`Internal error` text, canary build still reproducible; per batch: goroutines back to baseline, process alive. Held-on-observed only.",
          "Trusted: the Go runtime (process exit status, goroutine count), the journal written before each call. A hang is a call exceeding 60 s under load, confirmed alone with 120 s. Two super-linear inputs (nested CSS rules, nested arrows) are capped in the workload and probed separately as known findings.",
